@@ -62,7 +62,10 @@ def ds_value(shape):
 EXPECTED_EXC = {"echo": 0x0000, "store": 0xC211, "n": 0x0110}
 
 
-def eval_single(service, sshape, dshape=None, special=None, msg_id=7, cx_id=1):
+TS_FLAGS = {"1.2.840.10008.1.2": (True, True, False), "1.2.840.10008.1.2.1": (False, True, False), "1.2.840.10008.1.2.2": (False, False, False), "1.2.840.10008.1.2.1.99": (False, True, True)}
+
+
+def eval_single(service, sshape, dshape=None, special=None, msg_id=7, cx_id=1, ts=IVRLE):
     """Returns (problems for C20, problems for C21, response statuses)."""
     from pynetdicom import evt
     from pynetdicom import dimse_primitives as dp
@@ -71,7 +74,8 @@ def eval_single(service, sshape, dshape=None, special=None, msg_id=7, cx_id=1):
     from pynetdicom.sop_class import uid_to_service_class
 
     uid = {"echo": scp.ECHO, "store": scp.CT}.get(service, FILM_SESSION)
-    assoc = stubs.make_assoc("acceptor", contexts=[(cx_id, uid, IVRLE, False, True)])
+    assoc = stubs.make_assoc("acceptor", contexts=[(cx_id, uid, ts, False, True)])
+    imp, le, defl = TS_FLAGS[ts]
     single = service in ("echo", "store", "n-delete")
 
     def handler(event):
@@ -92,7 +96,7 @@ def eval_single(service, sshape, dshape=None, special=None, msg_id=7, cx_id=1):
 
     evs = {"echo": evt.EVT_C_ECHO, "store": evt.EVT_C_STORE, "n-get": evt.EVT_N_GET, "n-set": evt.EVT_N_SET, "n-action": evt.EVT_N_ACTION, "n-create": evt.EVT_N_CREATE, "n-delete": evt.EVT_N_DELETE, "n-event-report": evt.EVT_N_EVENT_REPORT}
     assoc.bind(evs[service], handler)
-    some = BytesIO(encode(scp.mk_ds(1, False), True, True))
+    some = BytesIO(encode(scp.mk_ds(1, False), imp, le, defl))
     if service == "echo":
         req = dp.C_ECHO()
         req.AffectedSOPClassUID = uid
@@ -124,7 +128,7 @@ def eval_single(service, sshape, dshape=None, special=None, msg_id=7, cx_id=1):
             req.EventTypeID = 1
             req.EventInformation = some
     req.MessageID = msg_id
-    cx = build_context(uid, IVRLE)
+    cx = build_context(uid, ts)
     cx.context_id = cx_id
     svc = uid_to_service_class(uid)(assoc)
     exc = None
@@ -186,9 +190,13 @@ def eval_single(service, sshape, dshape=None, special=None, msg_id=7, cx_id=1):
             if not v or v[0] != "bytes" or not v[1]:
                 c21.append((f"dataset-missing-{sshape}", f"{kw} not sent although the handler supplied a dataset with status {sshape}"))
             else:
-                back = decode(BytesIO(v[1]), True, True)
-                if back != ds_value("ds"):
-                    c21.append(("dataset-differs", f"{kw} differs from the handler's dataset"))
+                try:
+                    back = decode(BytesIO(v[1]), imp, le, defl)
+                    same = back == ds_value("ds")
+                except Exception as exc:  # noqa
+                    same = False
+                if not same:
+                    c21.append(("dataset-differs", f"{kw} does not decode under the context's transfer syntax {ts} to the handler's dataset"))
     return c20, c21, statuses
 
 
@@ -204,6 +212,11 @@ def cases(quick):
                 yield dict(service=service, sshape=s, dshape=d)
         for sp in SPECIAL:
             yield dict(service=service, sshape="ok", dshape="ds", special=sp)
+    # response data sets under every uncompressed / deflated transfer syntax
+    for service in ("n-get", "n-set", "n-action", "n-create", "n-event-report"):
+        for ts in list(TS_FLAGS)[1:]:
+            for s in ("ok", "warn", "ds_ok"):
+                yield dict(service=service, sshape=s, dshape="ds", ts=ts)
     for service in ("echo", "n-get"):
         for mid, cx in ((0, 1), (65535, 255)):
             yield dict(service=service, sshape="ok", dshape="ds", msg_id=mid, cx_id=cx)
@@ -218,6 +231,6 @@ def run_all(ctx, which="c20"):
         c20, c21, statuses = eval_single(**c)
         shapes.add((c["service"], tuple(statuses)))
         for sym, t in c20 if which == "c20" else c21:
-            k = f"{c['service']}:{sym}:{c.get('special') or c['sshape']}"
+            k = f"{c['service']}:{sym}:{c.get('special') or c['sshape']}" + (f":{c['ts'].split('.')[-1] if c['ts'].endswith('.99') else c['ts'][-3:]}" if c.get("ts") else "")
             viols.setdefault(k, (f"{c}: {t}", c))
     return {"viols": viols, "n": n, "shapes": len(shapes)}
